@@ -1,13 +1,21 @@
 // C01 - write-then-read round trip through osmium::io::Writer / osmium::io::Reader.
 //
-// One evaluation = one (data set, option vector) pair: the abstract data set is built with the
-// builders, handed to a Writer configured with the option vector, the produced file is checked by an
-// independent PBF framing parser (no libosmium code), read back with a Reader and compared field by
-// field with carry(D, options) - the reference statement of which fields each format / option vector
-// carries (everything else is expected at its default).
+// One evaluation = one (data set, option vector) pair: the abstract data set (model.hpp) is restricted to the
+// objects the option vector can express, built with the builders, handed to a Writer configured with the option
+// vector, the produced file is checked by an independent PBF framing parser (no libosmium code), read back with a
+// Reader and compared field by field with carry(D, options) - the reference statement of which fields each
+// format / option vector carries (everything else is expected at its default).
 //
-// Parts (--part): cycles (families of data sets x option vectors), bbox (PBF header bounding box
-// conversion sweep), big (32 MiB families).
+// Parts (--part):
+//   ofat    one-factor-at-a-time objects (every boundary value of every field, others at a base value), packed per type
+//           and mixed, x EVERY option vector; the same objects as 1- and 2-object sequences x option vectors
+//   prod    full product of a reduced 2-3-value set per field, packed in chunks of 96 objects
+//   blk     block-boundary families: 7999/8000/8001/16001 objects of one type, type alternation
+//   big     32 MiB families: string-table-heavy blocks, group-data-heavy blocks, one oversized object after a full block
+//   hdr     header: 0..2 bounding boxes over corner boundary coordinates, generator strings
+//   bbox    PBF header bounding box: sweep of fixed-point coordinates through the real header encoder and decoder
+//
+// Every data set has a generator name; a replay spec is "<name>;sel=<object indexes>;opt=<option vector>".
 #include <benum/benum.hpp>
 
 #include "model.hpp"
@@ -52,7 +60,6 @@ struct Opt {
     bool xml() const { return fmt <= 2; }
     bool pbf() const { return fmt == 3 || fmt == 4; }
     bool opl() const { return fmt == 5; }
-    bool history() const { return fmt == 1 || fmt == 2 || fmt == 4; }
 };
 
 static const char* const FMT[] = {"osm", "osh", "osc", "pbf", "osh.pbf", "opl"};
@@ -68,7 +75,7 @@ static std::string meta_string(int m) {
     return s;
 }
 
-static std::string opt_string(const Opt& o) {   // also the replay form
+static std::string opt_string(const Opt& o) {   // the replay form
     char b[96];
     snprintf(b, sizeof b, "f%d,d%d,p%d,m%d,l%d,v%d,z%d,t%d", o.fmt, o.dense, o.pcomp, o.meta, o.low, o.fv, o.zip, o.thr);
     return b;
@@ -78,31 +85,36 @@ static Opt opt_parse(const std::string& s) {
     sscanf(s.c_str(), "f%d,d%d,p%d,m%d,l%d,v%d,z%d,t%d", &o.fmt, &o.dense, &o.pcomp, &o.meta, &o.low, &o.fv, &o.zip, &o.thr);
     return o;
 }
-static std::string opt_human(const Opt& o) {
+// the format string handed to osmium::io::File (this is how users give writer options)
+static std::string opt_format_string(const Opt& o) {
     std::string s = std::string(FMT[o.fmt]) + ZIP[o.zip];
     if (o.pbf()) s += std::string(",pbf_dense_nodes=") + (o.dense ? "true" : "false") + ",pbf_compression=" + PCOMP[o.pcomp];
     s += ",add_metadata=" + meta_string(o.meta) + ",locations_on_ways=" + (o.low ? "true" : "false");
     if (o.xml()) s += std::string(",force_visible_flag=") + (o.fv ? "true" : "false");
-    s += ",pool_threads=" + std::to_string(o.thr);
     return s;
 }
+static std::string opt_human(const Opt& o) { return opt_format_string(o) + " pool_threads=" + std::to_string(o.thr); }
 
-// every option vector; options a format does not read are held at their default.
-// level: 2 = every vector; 1 = metadata subsets {all, none, one 2-field subset} only; 0 = one vector per format/encoding
+// Option vectors; options a format does not read are held at their default.
+//   level 3: every vector (7296)
+//   level 2: every format/encoding x metadata subsets {all, none, version+uid} x locations_on_ways x force_visible x zip x threads (684)
+//   level 1: as level 2 without file compression / second thread count (114)
+//   level 0: one vector per format and PBF encoding (16)
 static std::vector<Opt> all_opts(int level) {
     std::vector<Opt> r;
     std::vector<int> metas;
-    if (level >= 2) for (int m = 0; m < 32; ++m) metas.push_back(m);
-    else if (level == 1) metas = {31, 0, 9};
+    if (level >= 3) { metas.push_back(31); for (int m = 0; m < 31; ++m) metas.push_back(m); }
+    else if (level >= 1) metas = {31, 0, 9};
     else metas = {31};
     for (int fmt = 0; fmt < 6; ++fmt) {
         Opt b; b.fmt = fmt;
-        for (int dense = 0; dense < 2; ++dense) for (int pcomp = 0; pcomp < 3; ++pcomp) {
+        for (int dense = 1; dense >= 0; --dense) for (int pcomp : {1, 0, 2}) {
             if (!b.pbf() && (dense != 1 || pcomp != 1)) continue;
             for (int m : metas) for (int low = 0; low < 2; ++low) for (int fv = 0; fv < 2; ++fv) {
                 if (!b.xml() && fv) continue;
+                if (level == 0 && (low || fv)) continue;
                 for (int zip = 0; zip < 3; ++zip) for (int thr = 1; thr <= 2; ++thr) {
-                    if (level == 0 && (low || fv || zip || thr == 2)) continue;
+                    if (level <= 1 && (zip || thr == 2)) continue;
                     Opt o = b; o.dense = dense; o.pcomp = pcomp; o.meta = m; o.low = low; o.fv = fv; o.zip = zip; o.thr = thr;
                     r.push_back(o);
                 }
@@ -122,47 +134,87 @@ static std::string area(const Opt& o, char type = 0) {
 }
 
 // ================================================================================================
-// carry(D, o): what must come back. Returns the expected sequence and header; fields a vector does not
-// carry are expected at their defaults; entities a format cannot express are not expected.
-struct Expect {
-    std::vector<AObj> objs;
-    AHeader header;
-    bool nontrivial = false;     // at least one non-default field value is carried
-};
+// Domain of an option vector (what the format can express at all) and carry(D, o): what must come back.
+static bool xml_string_ok(const std::string& s) {
+    // XML 1.0 cannot express C0 controls other than TAB/LF/CR and the noncharacters U+FFFE/U+FFFF (not even as character references)
+    for (size_t i = 0; i < s.size(); ++i) {
+        unsigned char c = static_cast<unsigned char>(s[i]);
+        if (c < 0x20 && c != '\t' && c != '\n' && c != '\r') return false;
+        if (c == 0xef && i + 2 < s.size() && static_cast<unsigned char>(s[i + 1]) == 0xbf && static_cast<unsigned char>(s[i + 2]) >= 0xbe) return false;
+    }
+    return true;
+}
+static bool obj_xml_strings_ok(const AObj& x) {
+    if (!xml_string_ok(x.user)) return false;
+    for (const auto& t : x.tags) if (!xml_string_ok(t.k) || !xml_string_ok(t.v)) return false;
+    for (const auto& m : x.members) if (!xml_string_ok(m.role)) return false;
+    for (const auto& c : x.comments) if (!xml_string_ok(c.user) || !xml_string_ok(c.text)) return false;
+    return true;
+}
 
 static bool carries_visible(const Opt& o) {
     if (o.fmt == 0) return o.fv != 0;          // plain .osm: only with force_visible_flag
     if (o.fmt == 1 || o.fmt == 2) return true; // .osh: visible attribute; .osc: <delete> sections
-    if (o.fmt == 3) return false;
+    if (o.fmt == 3) return false;              // PBF without history has no visible flag
     if (o.fmt == 4) return true;
     return o.meta != 0;                        // OPL writes the dV/dD field together with any metadata
 }
 
+// reason why an object is outside what the option vector can express (nullptr: in domain)
+static const char* out_of_domain(const AObj& x, const Opt& o) {
+    if (x.type == 'c') {
+        if (o.pbf()) return "changeset-in-pbf";            // property: changesets only for XML and OPL
+        if (o.fmt == 2) return "changeset-in-change-file"; // an osmChange file consists of create/modify/delete sections of n/w/r
+    } else if (!x.visible && !carries_visible(o)) return "deleted-object-without-visible-flag";
+    if (o.xml()) {
+        if (!obj_xml_strings_ok(x)) return "string-not-expressible-in-xml-1.0";
+        // /repo/test/t/osm/test_types_from_string.cpp pins that the XML attribute parsers reject the uint32 maximum
+        if (x.type != 'c' && (o.meta & 4) && x.changeset == 4294967295u) return "uint32-max-pinned-by-repo-tests";
+        if (x.type == 'c' && (x.id == 4294967295LL)) return "uint32-max-pinned-by-repo-tests";
+    }
+    return nullptr;
+}
+
+struct Expect {
+    std::vector<AObj> objs;          // expected read-back
+    std::vector<size_t> written;     // indexes (in D) of the objects that are in the vector's domain and are written
+    AHeader header;
+    bool nontrivial = false;         // at least one non-default field value is carried
+    size_t skipped = 0;
+    bool header_outside_domain = false;   // the generator string cannot be expressed by the format
+};
+
 static Expect carry(const DataSet& d, const Opt& o) {
     Expect e;
-    for (const AObj& in : d.objs) {
-        if (in.type == 'c' && o.pbf()) continue;   // PBF has no changesets (domain: changesets only for XML and OPL)
+    for (size_t i = 0; i < d.objs.size(); ++i) {
+        const AObj& in = d.objs[i];
+        if (out_of_domain(in, o)) { ++e.skipped; continue; }
+        e.written.push_back(i);
         AObj x = in;
+        x.label.clear();
         if (in.type != 'c') {
             if (!(o.meta & 1)) x.version = 0;
             if (!(o.meta & 2)) x.ts = 0;
             if (!(o.meta & 4)) x.changeset = 0;
             if (!(o.meta & 8)) x.uid = 0;
             if (!(o.meta & 16)) x.user.clear();
-            if (!carries_visible(o)) x.visible = true;
+            // PBF: a deleted node has no location (pinned by "Reader should decode zero node positions in history (PBF)")
+            if (in.type == 'n' && o.pbf() && !x.visible) x.loc = Loc{};
             if (in.type == 'w' && !o.low) for (auto& r : x.refs) r.loc = Loc{};
         } else {
             if (o.opl()) x.comments.clear();       // discussions only in XML
         }
         if (x.version || x.ts || x.changeset || x.uid || !x.user.empty() || !x.visible || !x.tags.empty() || !x.loc.undefined() || !x.refs.empty() ||
             !x.members.empty() || x.id != 0 || x.num_changes || x.created || x.closed || x.num_comments || !x.comments.empty() || !x.bl.undefined()) e.nontrivial = true;
-        e.objs.push_back(x);
+        e.objs.push_back(std::move(x));
     }
+    const std::string default_generator = "libosmium/" LIBOSMIUM_VERSION_STRING;
     if (o.xml()) {
         e.header = d.header;
-        if (e.header.generator.empty()) e.header.generator = "libosmium/" LIBOSMIUM_VERSION_STRING;
+        if (!xml_string_ok(d.header.generator)) e.header_outside_domain = true;
+        if (e.header.generator.empty()) e.header.generator = default_generator;
     } else if (o.pbf()) {
-        e.header.generator = d.header.generator.empty() ? std::string("libosmium/" LIBOSMIUM_VERSION_STRING) : d.header.generator;
+        e.header.generator = d.header.generator.empty() ? default_generator : d.header.generator;
         if (!d.header.boxes.empty()) {             // PBF has one bounding box: the union
             ABox j = d.header.boxes[0];
             for (const ABox& b : d.header.boxes) {
@@ -172,6 +224,7 @@ static Expect carry(const DataSet& d, const Opt& o) {
             e.header.boxes.push_back(j);
         }
     }                                              // OPL has no header
+    if (!e.header.boxes.empty() || (!d.header.generator.empty() && !o.opl())) e.nontrivial = true;
     return e;
 }
 
@@ -199,6 +252,7 @@ struct Framing {
     bool parsed = true; std::string problem;   // parse problem of the framing itself
     uint64_t blobs = 0, max_header = 0, max_raw = 0, max_entities = 0, entities = 0;
     std::string limit;                          // first format limit that is exceeded ("" = none)
+    std::string header_blob;                    // the Blob message of the OSMHeader (for the bbox part)
 };
 
 static Framing pbf_framing(const std::string& file) {
@@ -216,18 +270,17 @@ static Framing pbf_framing(const std::string& file) {
         std::string type; int64_t datasize = -1;
         while (h.more()) { int wt; const unsigned char* b = nullptr; size_t n = 0; uint64_t v = 0; int fn = h.next(wt, b, n, v); if (fn == 1 && wt == 2) type.assign(reinterpret_cast<const char*>(b), n); if (fn == 3 && wt == 0) datasize = static_cast<int32_t>(v); }
         if (!h.ok || datasize < 0) { f.parsed = false; f.problem = "malformed BlobHeader"; return f; }
-        if (static_cast<uint64_t>(datasize) > file.size() - pos) { f.parsed = false; f.problem = "blob beyond end of file (datasize " + std::to_string(datasize) + ")"; return f; }
-        if ((f.blobs == 0) != (type == "OSMHeader") || (f.blobs > 0 && type != "OSMData")) { f.parsed = false; f.problem = "unexpected blob type '" + type + "' at blob " + std::to_string(f.blobs); return f; }
+        if (static_cast<uint64_t>(datasize) > file.size() - pos) { f.parsed = false; f.problem = "blob beyond end of file"; return f; }
+        if ((f.blobs == 0) != (type == "OSMHeader") || (f.blobs > 0 && type != "OSMData")) { f.parsed = false; f.problem = "unexpected blob type at blob " + std::string(f.blobs == 0 ? "0" : ">0"); return f; }
+        if (f.blobs == 0) f.header_blob.assign(file.data() + pos, static_cast<size_t>(datasize));
         PB bl(file.data() + pos, static_cast<size_t>(datasize)); pos += static_cast<size_t>(datasize);
         const unsigned char* data = nullptr; size_t dn = 0; int comp = -1; int64_t raw_size = -1;
         while (bl.more()) { int wt; const unsigned char* b = nullptr; size_t n = 0; uint64_t v = 0; int fn = bl.next(wt, b, n, v);
             if (fn == 1 && wt == 2) { data = b; dn = n; comp = 0; } if (fn == 2 && wt == 0) raw_size = static_cast<int32_t>(v);
             if (fn == 3 && wt == 2) { data = b; dn = n; comp = 1; } if (fn == 6 && wt == 2) { data = b; dn = n; comp = 2; } }
         if (!bl.ok || comp < 0) { f.parsed = false; f.problem = "malformed Blob"; return f; }
-        uint64_t rs = comp == 0 ? dn : static_cast<uint64_t>(raw_size < 0 ? 0 : raw_size);
-        if (comp != 0 && raw_size < 0) {   // a negative raw_size is what an int32 overflow of a > 2 GiB block would give; not reachable here
-            f.parsed = false; f.problem = "compressed blob without usable raw_size"; return f;
-        }
+        if (comp != 0 && raw_size < 0) { f.parsed = false; f.problem = "compressed blob without usable raw_size"; return f; }
+        uint64_t rs = comp == 0 ? dn : static_cast<uint64_t>(raw_size);
         f.max_raw = std::max(f.max_raw, rs);
         if (rs > 32ull * 1024 * 1024) { if (f.limit.empty()) f.limit = "blob-exceeds-32MiB"; ++f.blobs; continue; }
         const unsigned char* pd = data; size_t pn = dn;
@@ -255,99 +308,115 @@ static Framing pbf_framing(const std::string& file) {
 
 // ================================================================================================
 // one write/read cycle
-static std::string g_dir;
-static osmium::thread::Pool* g_pool[3] = {nullptr, nullptr, nullptr};
+static std::string g_dir;                                      // scratch directory of this shard process
+static osmium::thread::Pool* g_pool[3] = {nullptr, nullptr, nullptr};   // created lazily (in the forked child)
 
-static void ensure_env() {
-    if (g_dir.empty()) {
-        char b[96]; snprintf(b, sizeof b, "/dev/shm/verif-c01-%d", static_cast<int>(getpid()));
-        g_dir = b; mkdir(g_dir.c_str(), 0700);
-    }
-    for (int t = 1; t <= 2; ++t) if (!g_pool[t]) g_pool[t] = new osmium::thread::Pool{t};
+static void make_dir() {
+    mkdir("/verif/build", 0755);
+    mkdir("/verif/build/C01-data", 0755);
+    char b[96]; snprintf(b, sizeof b, "/verif/build/C01-data/p%d", static_cast<int>(getpid()));
+    g_dir = b; mkdir(g_dir.c_str(), 0700);
 }
-static void cleanup_env() {
+static void cleanup_dir() {
     if (g_dir.empty()) return;
-    if (DIR* d = opendir(g_dir.c_str())) { while (dirent* e = readdir(d)) { if (e->d_name[0] != '.') unlink((g_dir + "/" + e->d_name).c_str()); } closedir(d); }
+    if (DIR* d = opendir(g_dir.c_str())) { while (dirent* e = readdir(d)) { if (strcmp(e->d_name, ".") && strcmp(e->d_name, "..")) unlink((g_dir + "/" + e->d_name).c_str()); } closedir(d); }
     rmdir(g_dir.c_str());
+    rmdir("/verif/build/C01-data");   // succeeds only when no other process uses it
 }
+static void ensure_pools() { for (int t = 1; t <= 2; ++t) if (!g_pool[t]) g_pool[t] = new osmium::thread::Pool{t}; }
 
-static std::string norm_msg(std::string m) {   // exception text as a key fragment: digits and quoted payloads collapsed
+static std::string norm_msg(const std::string& m) {   // exception text as a key fragment: digits collapsed, payload cut
     std::string r; bool lastn = false;
     for (char c : m) {
         if (isdigit(static_cast<unsigned char>(c))) { if (!lastn) r += 'N'; lastn = true; continue; }
         lastn = false;
-        if (c == '\'' || c == '"') break;   // payload follows
-        r += (c == ' ' || c == '/' ) ? '_' : c;
+        if (c == '\'' || c == '"' || c == '(') break;   // payload follows
+        r += (c == ' ' || c == '/' || c == '\t') ? '_' : c;
         if (r.size() > 60) break;
     }
-    while (!r.empty() && (r.back() == '_' || r.back() == ':' || r.back() == '(')) r.pop_back();
+    while (!r.empty() && (r.back() == '_' || r.back() == ':')) r.pop_back();
     return r;
 }
 
 struct Outcome {
     enum Kind { ok, writer_threw, framing_bad, limit_exceeded, reader_threw, mismatch, count_mismatch, header_mismatch } kind = ok;
     std::string key_what, key_cls, detail;   // fragments of the class key
-    size_t obj_index = 0; char obj_type = 0;
-    bool used_open = false;
+    size_t obj_index = 0;                    // index in D of the first differing object
+    char obj_type = 0;
     uint64_t file_size = 0;
     Framing fr;
+    bool nontrivial = false, outside_domain = false;
+    size_t skipped = 0, written = 0;
 };
+static const char* const KIND[] = {"ok", "writer-threw", "framing-unparseable", "format-limit-exceeded", "reader-threw", "field-mismatch", "object-count-mismatch", "header-mismatch"};
 
 static bool g_keep_file = false;
 
 static Outcome cycle(const DataSet& d, const Opt& o) {
-    ensure_env();
+    ensure_pools();
     Outcome out;
     const std::string path = g_dir + "/f." + FMT[o.fmt] + ZIP[o.zip];
+    const Expect e = carry(d, o);
+    out.nontrivial = e.nontrivial; out.skipped = e.skipped; out.written = e.written.size();
+    if (e.header_outside_domain) { out.outside_domain = true; return out; }
     // ---- write
     try {
-        osmium::io::File file{path};
-        if (o.pbf()) { file.set("pbf_dense_nodes", o.dense != 0); file.set("pbf_compression", PCOMP[o.pcomp]); }
-        file.set("add_metadata", meta_string(o.meta));
-        file.set("locations_on_ways", o.low != 0);
-        if (o.xml()) file.set("force_visible_flag", o.fv != 0);
+        osmium::io::File file{path, opt_format_string(o)};
         osmium::io::Header header;
         for (const ABox& b : d.header.boxes) header.add_box(osmium::Box{to_loc(b.bl), to_loc(b.tr)});
         if (!d.header.generator.empty()) header.set("generator", d.header.generator);
         osmium::io::Writer writer{file, header, osmium::io::overwrite::allow, *g_pool[o.thr]};
-        size_t i = 0, si = 0;
-        while (i < d.objs.size()) {
-            size_t end = d.objs.size();
-            while (si < d.split.size() && d.split[si] <= i) ++si;
-            if (si < d.split.size()) end = d.split[si];
-            size_t cap = 4096; for (size_t k = i; k < end; ++k) cap += size_estimate(d.objs[k]);
-            osmium::memory::Buffer buf{(cap + 7) & ~size_t(7), osmium::memory::Buffer::auto_grow::no};
-            for (size_t k = i; k < end; ++k) build_object(buf, d.objs[k]);
-            writer(std::move(buf));
-            i = end;
+        const size_t per = d.feed == 2 ? 1 : d.feed == 3 ? 3 : e.written.size() + 1;
+        if (d.feed == 1) writer.set_buffer_size(64 * 1024);
+        for (size_t i = 0; i < e.written.size(); i += per) {
+            const size_t end = std::min(e.written.size(), i + per);
+            size_t cap = 4096; for (size_t k = i; k < end; ++k) cap += size_estimate(d.objs[e.written[k]]);
+            osmium::memory::Buffer buf{(cap + 7) & ~size_t(7), osmium::memory::Buffer::auto_grow::yes};
+            for (size_t k = i; k < end; ++k) build_object(buf, d.objs[e.written[k]]);
+            if (d.feed == 1) { for (const auto& item : buf) writer(item); }
+            else writer(std::move(buf));
         }
         out.file_size = writer.close();
-    } catch (const std::exception& e) {
-        out.kind = Outcome::writer_threw; out.key_what = norm_msg(e.what()); out.detail = std::string("Writer threw: ") + e.what();
+    } catch (const std::exception& ex) {
+        out.kind = Outcome::writer_threw; out.key_what = norm_msg(ex.what()); out.detail = std::string("Writer threw: ") + ex.what();
         unlink(path.c_str());
         return out;
     }
-    // ---- independent framing check (uncompressed PBF files)
+    // ---- independent framing check (PBF files without outer compression)
     if (o.pbf() && o.zip == 0) {
         std::string bytes = benum::slurp(path, 1ull << 32);
         out.fr = pbf_framing(bytes);
+        out.fr.header_blob.clear();
         ++C["pbf_files_framing_checked"];
         C["pbf_blobs_checked"] += out.fr.blobs;
     }
     // ---- read
-    Expect e = carry(d, o);
     std::vector<AObj> got; AHeader gh;
     bool reader_failed = false; std::string rmsg;
-    try {
-        osmium::io::Reader reader{osmium::io::File{path}, osmium::osm_entity_bits::all, *g_pool[o.thr]};
-        osmium::io::Header h = reader.header();
-        gh.generator = h.get("generator");
-        for (const auto& b : h.boxes()) gh.boxes.push_back(ABox{from_loc(b.bottom_left()), from_loc(b.top_right())});
-        while (osmium::memory::Buffer buf = reader.read()) {
-            for (const auto& ent : buf.select<osmium::OSMEntity>()) { AObj x; if (extract(ent, x)) got.push_back(std::move(x)); }
-        }
-        reader.close();
-    } catch (const std::exception& ex) { reader_failed = true; rmsg = ex.what(); }
+    auto read_back = [&](const osmium::io::File& f) {
+        got.clear(); gh = AHeader{}; reader_failed = false; rmsg.clear();
+        try {
+            osmium::io::Reader reader{f, osmium::osm_entity_bits::all, *g_pool[o.thr]};
+            osmium::io::Header h = reader.header();
+            gh.generator = h.get("generator");
+            for (const auto& b : h.boxes()) gh.boxes.push_back(ABox{from_loc(b.bottom_left()), from_loc(b.top_right())});
+            while (osmium::memory::Buffer buf = reader.read()) {
+                for (const auto& ent : buf.select<osmium::OSMEntity>()) { AObj x; if (extract(ent, x)) got.push_back(std::move(x)); }
+            }
+            reader.close();
+        } catch (const std::exception& ex) { reader_failed = true; rmsg = ex.what(); }
+    };
+    read_back(osmium::io::File{path});
+    // A PBF file with outer gzip/bzip2 compression: if the Reader rejects the file it wrote under that name, the same bytes are
+    // handed to a Reader as a memory buffer (with the format given) so that the content is still compared; the rejection itself
+    // is reported below if nothing else is wrong.
+    std::string outer_rejection;
+    if (reader_failed && o.pbf() && o.zip != 0) {
+        outer_rejection = rmsg;
+        const std::string bytes = benum::slurp(path, 1ull << 32);
+        read_back(osmium::io::File{bytes.data(), bytes.size(), std::string(FMT[o.fmt]) + ZIP[o.zip]});
+        ++C["pbf_outer_compression_reread_from_memory"];
+    }
     if (!g_keep_file) unlink(path.c_str());
     // ---- verdict
     if (o.pbf() && o.zip == 0) {
@@ -363,11 +432,12 @@ static Outcome cycle(const DataSet& d, const Opt& o) {
     if (reader_failed) { out.kind = Outcome::reader_threw; out.key_what = norm_msg(rmsg); out.detail = "Writer closed without error (" + std::to_string(out.file_size) + " bytes), Reader threw: " + rmsg; return out; }
     size_t n = std::min(e.objs.size(), got.size());
     for (size_t i = 0; i < n; ++i) {
-        Diff df = compare(e.objs[i], got[i], o.pbf(), &out.used_open);
+        Diff df = compare(e.objs[i], got[i], false, nullptr);
         if (df.differs) {
-            out.kind = Outcome::mismatch; out.obj_index = i; out.obj_type = e.objs[i].type;
+            const AObj& src = d.objs[e.written[i]];
+            out.kind = Outcome::mismatch; out.obj_index = e.written[i]; out.obj_type = e.objs[i].type;
             out.key_what = df.field + "/" + df.how; out.key_cls = df.cls;
-            out.detail = "object #" + std::to_string(i) + " [" + e.objs[i].label + "] field " + df.field + ": " + df.detail + " | written " + show(e.objs[i]) + " | read " + show(got[i]);
+            out.detail = "object #" + std::to_string(e.written[i]) + " [" + src.label + "] field " + df.field + ": " + df.detail + " | expected " + show(e.objs[i]) + " | read " + show(got[i]);
             return out;
         }
     }
@@ -383,7 +453,7 @@ static Outcome cycle(const DataSet& d, const Opt& o) {
         const ABox& a = e.header.boxes[i]; const ABox& b = gh.boxes[i];
         if (a.bl != b.bl || a.tr != b.tr) {
             out.kind = Outcome::header_mismatch;
-            // classify: every differing coordinate is exactly one unit closer to zero (double truncation) | anything else
+            // classify: every differing coordinate is exactly one unit closer to zero (truncation) | anything else
             bool trunc1 = true;
             const int32_t ev[4] = {a.bl.x, a.bl.y, a.tr.x, a.tr.y}, gv[4] = {b.bl.x, b.bl.y, b.tr.x, b.tr.y};
             for (int k = 0; k < 4; ++k) if (ev[k] != gv[k]) { int64_t dlt = static_cast<int64_t>(gv[k]) - ev[k]; if (!((ev[k] > 0 && dlt == -1) || (ev[k] < 0 && dlt == 1))) trunc1 = false; }
@@ -392,5 +462,639 @@ static Outcome cycle(const DataSet& d, const Opt& o) {
             return out;
         }
     }
+    if (!outer_rejection.empty()) {
+        out.kind = Outcome::reader_threw; out.key_what = norm_msg(outer_rejection); out.key_cls = "outer-file-compression-ignored-when-reading-from-file";
+        out.detail = "Writer closed without error (" + std::to_string(out.file_size) + " bytes), Reader{filename} threw: " + outer_rejection + " (the same bytes read from a memory buffer with format '" + FMT[o.fmt] + ZIP[o.zip] + "' give back the data set)";
+    }
     return out;
+}
+
+// ================================================================================================
+// class keys, minimisation, reporting
+static DataSet select(const DataSet& d, const std::vector<size_t>& sel) {
+    DataSet r; r.header = d.header; r.feed = d.feed; r.name = d.name; r.keyhint = d.keyhint;
+    for (size_t i : sel) if (i < d.objs.size()) r.objs.push_back(d.objs[i]);
+    return r;
+}
+// selections are written as sorted index ranges: "0-8,10,12-160"
+static std::string sel_string(const std::vector<size_t>& sel) {
+    std::string s;
+    for (size_t i = 0; i < sel.size();) {
+        size_t j = i; while (j + 1 < sel.size() && sel[j + 1] == sel[j] + 1) ++j;
+        if (!s.empty()) s += ",";
+        s += std::to_string(sel[i]); if (j > i) s += "-" + std::to_string(sel[j]);
+        i = j + 1;
+    }
+    return s;
+}
+static std::vector<size_t> sel_parse(const std::string& s) {
+    std::vector<size_t> r;
+    if (s.empty()) return r;
+    size_t p = 0;
+    for (;;) {
+        size_t q = s.find(',', p); std::string t = s.substr(p, q == std::string::npos ? q : q - p);
+        size_t dash = t.find('-'); size_t lo = strtoull(t.c_str(), nullptr, 10), hi = dash == std::string::npos ? lo : strtoull(t.c_str() + dash + 1, nullptr, 10);
+        for (size_t i = lo; i <= hi && r.size() < 10000000; ++i) r.push_back(i);
+        if (q == std::string::npos) break; p = q + 1;
+    }
+    return r;
+}
+
+// what a whole-file finding (exception, limit) is attributed to: the family tag, the single object's factor, or "sequence"
+static std::string subject(const DataSet& d, const Opt& o) {
+    if (!d.keyhint.empty()) return d.keyhint;
+    const AObj* only = nullptr; size_t n = 0;
+    for (const AObj& x : d.objs) if (!out_of_domain(x, o)) { only = &x; ++n; }
+    if (n == 1 && !only->label.empty()) return only->label;
+    return n == 0 ? "no-objects" : n == 1 ? "single-object" : "sequence";
+}
+static char single_type(const DataSet& d, const Opt& o) {
+    char t = 0; size_t n = 0;
+    for (const AObj& x : d.objs) if (!out_of_domain(x, o)) { t = x.type; ++n; }
+    return n == 1 ? t : 0;
+}
+
+// area of exceptions: the change-file writer/reader share the attribute code with plain XML
+static std::string area_x(const Opt& o, char type) { return o.xml() ? "xml" : area(o, type); }
+
+static std::string outcome_key(const DataSet& d, const Opt& o, const Outcome& r) {
+    switch (r.kind) {
+        case Outcome::ok: return "";
+        case Outcome::writer_threw: return area_x(o, single_type(d, o)) + "/writer-rejects-in-domain/" + r.key_what + "/" + subject(d, o);
+        case Outcome::framing_bad: return "pbf/framing-unparseable/" + r.key_what + "/" + subject(d, o);
+        case Outcome::limit_exceeded: return "pbf/limit/" + r.key_what + "/" + subject(d, o);
+        case Outcome::reader_threw: if (!r.key_cls.empty()) return "pbf/reader-rejects-written-file/" + r.key_what + "/" + r.key_cls;
+                                    return area_x(o, single_type(d, o)) + "/reader-rejects-written-file/" + r.key_what + "/" + subject(d, o);
+        case Outcome::mismatch: return area(o, r.obj_type) + "/" + r.key_what + "/" + r.key_cls;
+        case Outcome::count_mismatch: return area(o) + "/" + r.key_what + "/" + subject(d, o);
+        case Outcome::header_mismatch: return area(o) + "/header/" + r.key_what + "/" + r.key_cls;
+    }
+    return "";
+}
+
+static std::set<std::string> g_sets;
+static void set_once(const std::string& key, const std::string& v) { if (g_sets.insert(key + "\t" + v).second) benum::setv(key, v); }
+
+static void report(const DataSet& d, const std::vector<size_t>* sel, const Opt& o, const Outcome& r) {
+    DataSet t = sel ? select(d, *sel) : d;
+    const std::string key = outcome_key(t, o, r);
+    std::string detail = "options: " + opt_human(o) + " | data set " + d.name + (sel ? " objects " + sel_string(*sel) : "") + " (" + std::to_string(t.objs.size()) + " objects) | " + r.detail;
+    if (t.objs.size() == 1 && r.kind != Outcome::mismatch) detail += " | object: " + show(t.objs[0]);
+    V.report(key, detail, d.name + ";sel=" + (sel ? sel_string(*sel) : std::string("all")) + ";opt=" + opt_string(o));
+}
+
+static bool same_failure(const Outcome& a, const Outcome& b) { return a.kind == b.kind && (a.kind != Outcome::mismatch || a.key_what == b.key_what); }
+
+// Objects that were found to make a cycle fail, per data set and format: later cycles on the same data set write the sequence
+// without them (so that the rest of the sequence is still compared) and each of them alone (so that it is still reported).
+static std::map<std::string, std::set<size_t>> g_quarantine;
+
+// Runs one case. A failing sequence is reduced to the object that causes the failure (alone, or with its predecessor), the
+// finding is reported with that selection, and the sequence is run again without the object.
+static void evaluate(const DataSet& d, const Opt& o, bool is_replay = false) {
+    auto count = [&](const Outcome& r) {
+        ++C["evaluations"];
+        if (r.nontrivial) ++C["distinct_nontrivial"];
+        C["objects_written"] += r.written;
+        C["objects_outside_vector_domain_skipped"] += r.skipped;
+        set_once("outcomes", area(o) + ":" + KIND[r.kind]);
+    };
+    if (is_replay || d.objs.size() <= 1 || !d.keyhint.empty()) {
+        Outcome r = cycle(d, o);
+        if (r.outside_domain) { ++C["cycles_skipped_header_outside_vector_domain"]; return; }
+        if (!is_replay) count(r);
+        if (r.kind != Outcome::ok) { ++C["failed_cycles"]; report(d, nullptr, o, r); }
+        return;
+    }
+    std::set<size_t>& quarantine = g_quarantine[d.name + "|" + (o.xml() ? "xml" : o.pbf() ? "pbf" : "opl")];
+    const std::set<size_t> before = quarantine;
+    std::vector<size_t> active;
+    for (size_t i = 0; i < d.objs.size(); ++i) if (!quarantine.count(i)) active.push_back(i);
+    for (int iter = 0; iter < 24; ++iter) {
+        Outcome r = cycle(select(d, active), o);
+        if (r.outside_domain) { ++C["cycles_skipped_header_outside_vector_domain"]; return; }
+        if (iter == 0) count(r);
+        if (r.kind == Outcome::ok) break;
+        ++C["failed_cycles"];
+        auto fails_same = [&](const std::vector<size_t>& s, Outcome& out) { out = cycle(select(d, s), o); ++C["reduction_cycles"]; return same_failure(out, r); };
+        size_t culprit = ~size_t(0);
+        Outcome tr;
+        if (r.kind == Outcome::mismatch) {
+            const size_t pos = r.obj_index;             // position in the selection
+            culprit = active[pos];
+            std::vector<size_t> s1{culprit};
+            if (fails_same(s1, tr)) report(d, &s1, o, tr);
+            else { std::vector<size_t> s2; if (pos > 0) s2.push_back(active[pos - 1]); s2.push_back(culprit);
+                   if (pos > 0 && fails_same(s2, tr)) report(d, &s2, o, tr); else report(d, &active, o, r); }
+        } else if (r.kind == Outcome::header_mismatch || (r.kind == Outcome::reader_threw && !r.key_cls.empty())) {
+            std::vector<size_t> none;                   // independent of the objects; everything else was compared already
+            if (fails_same(none, tr)) report(d, &none, o, tr); else report(d, &active, o, r);
+            break;
+        } else {                                        // exception, limit, count: bisect for a single object that fails alone
+            std::vector<size_t> cur = active;
+            bool found = true;
+            while (cur.size() > 1 && found) {
+                std::vector<size_t> h1(cur.begin(), cur.begin() + cur.size() / 2), h2(cur.begin() + cur.size() / 2, cur.end());
+                if (fails_same(h1, tr)) cur = h1; else if (fails_same(h2, tr)) cur = h2; else found = false;
+            }
+            if (found && cur.size() == 1 && fails_same(cur, tr)) { culprit = cur[0]; report(d, &cur, o, tr); }
+            else { report(d, &active, o, r); break; }
+        }
+        quarantine.insert(culprit);
+        active.erase(std::find(active.begin(), active.end(), culprit));
+    }
+    for (size_t q : before) {                           // objects quarantined by earlier cycles: each alone
+        if (out_of_domain(d.objs[q], o)) continue;
+        std::vector<size_t> s{q};
+        Outcome r = cycle(select(d, s), o); ++C["quarantined_objects_run_alone"];
+        if (r.kind != Outcome::ok) report(d, &s, o, r);
+    }
+}
+
+// ================================================================================================
+// value sets
+static const int64_t I64MAX = INT64_MAX, I64MIN1 = INT64_MIN + 1;
+static const std::vector<int64_t> IDS = {I64MIN1, -(1LL << 32), -1, 0, 1, 1LL << 31, 1LL << 32, I64MAX - 1, I64MAX};
+static const std::vector<uint32_t> VERSIONS = {0, 1, 2, 2147483647u};
+static const std::vector<uint32_t> UIDS = {0, 1, 2147483647u};
+static const std::vector<uint32_t> TIMES = {0, 1, 2147483647u, 2147483648u, 4294967295u};
+static const std::vector<uint32_t> CSETS = {0, 1, 2147483648u, 4294967294u, 4294967295u};
+static const std::vector<uint32_t> COUNTS = {0, 1, 4294967294u};
+static const std::vector<Loc> LOCS = {Loc{}, Loc{0, 0}, Loc{1, 1}, Loc{-1, -1}, Loc{1, -1}, Loc{1800000000, 900000000}, Loc{-1800000000, -900000000},
+                                      Loc{1800000001, 0}, Loc{0, 900000001}, Loc{-2000000000, 5}, Loc{2147483646, INT32_MIN}, Loc{INT32_MIN, 2147483646}};
+static const uint32_t T0 = 1420070400u;
+
+static std::string rep(const std::string& s, size_t n) { std::string r; for (size_t i = 0; i < n; ++i) r += s; return r; }
+
+static const std::vector<std::string>& strings() {
+    static const std::vector<std::string> v = {
+        "", "a", std::string(1024, 'x'), std::string(1023, 'y'),
+        "\xc2\x80", "\xc3\xbc", "\xdf\xbf", "\xe0\xa0\x80", "\xe2\x82\xac", "\xef\xbf\xbd", "\xf0\x90\x80\x80", "\xf4\x8f\xbf\xbf", "\x7f",
+        "a\xc3\xa4\xe2\x82\xac\xf0\x90\x8d\x88z", rep("\xf4\x8f\xbf\xbf", 256), rep("\xe2\x82\xac", 341) + "x",
+        "\xef\xbf\xbe", "\xef\xbf\xbf",                                   // noncharacters: not expressible in XML 1.0
+        "&", "<", ">", "\"", "'", "&amp;", "&lt;x&gt;", "]]>", "<!-- x -->", "&#10;", "a&b<c>d\"e'f", "<tag k='a' v=\"b\"/>",
+        "\t", "\n", "\r", "\r\n", " ", " lead", "trail ", "a  b", "a\tb\nc\rd",
+        ",", "=", "@", "%", "%%", "%20%", "%25", "a b,c=d@e%f", "x=y", "n1@w2,r3", "%zz%",
+        "\x01", "\x1f", "a\x08" "b",                                      // C0 controls: not expressible in XML 1.0
+        "\xc2\xa0", "\xc2\xa1", "\xc2\xac\xc2\xad\xc2\xae", "\xd7\xbf", "\xd8\x80",   // edges of the OPL pass-through ranges
+        "!$&*+-./09:;<>?AZ[\\]^_`az{|}~",
+    };
+    return v;
+}
+
+static AObj base_obj(char type) {
+    AObj o; o.type = type; o.id = 17; o.version = 3; o.changeset = 555; o.uid = 42; o.ts = T0; o.user = "user"; o.tags = {{"highway", "primary"}};
+    if (type == 'n') o.loc = Loc{15000000, -25000000};
+    if (type == 'w') o.refs = {{1, Loc{10, 20}}, {2, Loc{30, 40}}, {3, Loc{50, 60}}};
+    if (type == 'r') o.members = {{'n', 1, "a"}, {'w', 2, ""}, {'r', 3, "role"}};
+    if (type == 'c') { o.version = 0; o.changeset = 0; o.ts = 0; o.created = T0; o.closed = T0 + 100; o.num_changes = 7; o.num_comments = 1; o.bl = Loc{10, 20}; o.tr = Loc{30, 40};
+                       o.tags = {{"comment", "x"}}; o.comments = {{T0 + 50, 9, "cu", "text"}}; }
+    return o;
+}
+
+// every one-factor variant of the base object of one type; label = "<factor>:<value class>"
+static std::vector<AObj> variants(char type) {
+    std::vector<AObj> v;
+    const AObj base = base_obj(type);
+    auto add = [&](AObj o, const std::string& label) { o.label = label; v.push_back(std::move(o)); };
+    add(base, "base");
+    if (type != 'c') {
+        for (int64_t id : IDS) { AObj o = base; o.id = id; add(o, "id:" + int_class(id, I64MAX)); }
+        for (uint32_t x : VERSIONS) { AObj o = base; o.version = x; add(o, "version:" + int_class(x, 4294967295LL)); }
+        for (uint32_t x : UIDS) { AObj o = base; o.uid = x; add(o, "uid:" + int_class(x, 4294967295LL)); }
+        for (uint32_t x : TIMES) { AObj o = base; o.ts = x; add(o, "timestamp:" + int_class(x, 4294967295LL)); }
+        for (uint32_t x : CSETS) { AObj o = base; o.changeset = x; add(o, "changeset:" + int_class(x, 4294967295LL)); }
+        { AObj o = base; o.visible = false; add(o, "visible:deleted"); }
+        { AObj o = base; o.visible = false; o.version = 1; add(o, "visible:deleted,version=1"); }
+        { AObj o = base; o.version = 0; o.ts = 0; o.changeset = 0; o.uid = 0; o.user.clear(); o.tags.clear(); add(o, "all-metadata:0"); }
+    } else {
+        for (int64_t id : {0LL, 1LL, 2147483648LL, 4294967294LL, 4294967295LL}) { AObj o = base; o.id = id; add(o, "id:" + int_class(id, 4294967295LL)); }
+        for (uint32_t x : TIMES) { AObj o = base; o.created = x; add(o, "created_at:" + int_class(x, 4294967295LL)); }
+        for (uint32_t x : TIMES) { AObj o = base; o.closed = x; add(o, "closed_at:" + int_class(x, 4294967295LL)); }
+        for (uint32_t x : COUNTS) { AObj o = base; o.num_changes = x; add(o, "num_changes:" + int_class(x, 4294967295LL)); }
+        for (uint32_t x : COUNTS) { AObj o = base; o.num_comments = x; add(o, "num_comments:" + int_class(x, 4294967295LL)); }
+        for (uint32_t x : {1u, 2147483647u}) { AObj o = base; o.uid = x; add(o, "uid:" + int_class(x, 4294967295LL)); }
+        { AObj o = base; o.uid = 0; o.user.clear(); add(o, "uid:anonymous"); }
+        { AObj o = base; o.bl = Loc{}; o.tr = Loc{}; add(o, "bounds:undefined"); }
+        { AObj o = base; o.bl = Loc{-1800000000, -900000000}; o.tr = Loc{1800000000, 900000000}; add(o, "bounds:world"); }
+        { AObj o = base; o.bl = Loc{0, 0}; o.tr = Loc{0, 0}; add(o, "bounds:point-0-0"); }
+        { AObj o = base; o.bl = Loc{-1, -1}; o.tr = Loc{1, 1}; add(o, "bounds:unit"); }
+        { AObj o = base; o.comments.clear(); o.num_comments = 0; add(o, "discussion:none"); }
+        { AObj o = base; o.comments = {{T0, 1, "a", "first"}, {T0 + 1, 2, "b", "second"}}; add(o, "discussion:2"); }
+        { AObj o = base; o.comments.clear(); for (int i = 0; i < 20; ++i) o.comments.push_back({T0 + i, static_cast<uint32_t>(i), "user" + std::to_string(i % 3), "text " + std::to_string(i)}); add(o, "discussion:20"); }
+        for (uint32_t x : TIMES) { AObj o = base; o.comments[0].date = x; add(o, "comment-date:" + int_class(x, 4294967295LL)); }
+        for (uint32_t x : UIDS) { AObj o = base; o.comments[0].uid = x; add(o, "comment-uid:" + int_class(x, 4294967295LL)); }
+        for (const auto& s : strings()) { AObj o = base; o.comments[0].user = s; add(o, "comment-user:" + str_class(s)); }
+        for (const auto& s : strings()) { AObj o = base; o.comments[0].text = s; add(o, "comment-text:" + str_class(s)); }
+    }
+    for (const auto& s : strings()) { if (type == 'c' && s.empty()) continue; AObj o = base; o.user = s; add(o, "user:" + str_class(s)); }
+    { AObj o = base; o.tags.clear(); add(o, "tags:0"); }
+    { AObj o = base; o.tags = {{"a", "b"}, {"c", "d"}}; add(o, "tags:2"); }
+    { AObj o = base; o.tags.clear(); for (int i = 0; i < 300; ++i) o.tags.push_back({"k" + std::to_string(i), "v" + std::to_string(i)}); add(o, "tags:300"); }
+    { AObj o = base; o.tags = {{"k", "v"}, {"k", "v2"}, {"k", "v"}, {"user", "user"}}; add(o, "tags:duplicate-keys"); }
+    for (const auto& s : strings()) { AObj o = base; o.tags = {{s, "v"}, {"k", s}}; add(o, "tag-string:" + str_class(s)); }
+    { AObj o = base; o.tags.clear(); for (int c = 1; c < 128; ++c) o.tags.push_back({std::string(1, static_cast<char>(c)), std::string("<") + static_cast<char>(c) + ">"}); add(o, "tags:every-ascii-character"); }
+    { AObj o = base; o.tags.clear(); for (int c = 1; c < 128; ++c) if (c >= 0x20 || c == 9 || c == 10 || c == 13) o.tags.push_back({std::string(1, static_cast<char>(c)), std::string("<") + static_cast<char>(c) + ">"}); add(o, "tags:every-xml-ascii-character"); }
+    if (type == 'n') {
+        for (const Loc& l : LOCS) { AObj o = base; o.loc = l; add(o, "location:" + loc_class(l)); }
+        { AObj o = base; o.visible = false; o.loc = Loc{}; add(o, "visible:deleted,location=undefined"); }
+    }
+    if (type == 'w') {
+        { AObj o = base; o.refs.clear(); add(o, "nodes:0"); }
+        for (int64_t id : IDS) { AObj o = base; o.refs = {{id, Loc{10, 20}}}; add(o, "node-ref:" + int_class(id, I64MAX)); }
+        { AObj o = base; o.refs.clear(); for (int64_t id : IDS) o.refs.push_back({id, Loc{1, 2}}); for (auto it = IDS.rbegin(); it != IDS.rend(); ++it) o.refs.push_back({*it, Loc{3, 4}}); add(o, "node-refs:all-boundary-ids"); }
+        { AObj o = base; o.refs.clear(); for (int i = 0; i < 2000; ++i) o.refs.push_back({1000 + i * (i % 3 == 0 ? -7 : 5), Loc{i, -i}}); add(o, "nodes:2000"); }
+        for (const Loc& l : LOCS) { AObj o = base; o.refs = {{5, l}}; add(o, "node-location:" + loc_class(l)); }
+        { AObj o = base; o.refs.clear(); int64_t k = 1; for (const Loc& l : LOCS) o.refs.push_back({k++, l}); add(o, "node-locations:all-boundary-locations"); }
+    }
+    if (type == 'r') {
+        { AObj o = base; o.members.clear(); add(o, "members:0"); }
+        for (char t : {'n', 'w', 'r'}) { AObj o = base; o.members = {{t, 7, "x"}}; add(o, std::string("member-type:") + t); }
+        for (int64_t id : IDS) { AObj o = base; o.members = {{'w', id, "outer"}}; add(o, "member-ref:" + int_class(id, I64MAX)); }
+        { AObj o = base; o.members.clear(); int k = 0; for (int64_t id : IDS) o.members.push_back({"nwr"[k++ % 3], id, "r"}); for (auto it = IDS.rbegin(); it != IDS.rend(); ++it) o.members.push_back({"nwr"[k++ % 3], *it, ""}); add(o, "member-refs:all-boundary-ids"); }
+        { AObj o = base; o.members.clear(); for (int i = 0; i < 300; ++i) o.members.push_back({"nwr"[i % 3], 100 + i * (i % 2 ? 3 : -2), "role" + std::to_string(i % 140)}); add(o, "members:300"); }
+        for (const auto& s : strings()) { AObj o = base; o.members = {{'n', 1, s}, {'w', 2, "x"}}; add(o, "member-role:" + str_class(s)); }
+    }
+    return v;
+}
+
+// ------------------------------------------------------------------------------------------------
+// reduced full product: 2-3 values per field
+static std::vector<uint32_t> prod_radix(char type) {
+    if (type == 'c') return {2, 2, 2, 2, 2, 3, 2, 2, 3};   // id created closed num_changes num_comments (uid,user) bounds tags comments
+    return {3, 3, 2, 2, 2, 2, 2, 3, 3};                    // id version ts changeset uid user visible (loc|refs|members) tags
+}
+static uint64_t prod_total(char type) { uint64_t t = 1; for (auto r : prod_radix(type)) t *= r; return t; }
+static AObj prod_obj(char type, uint64_t rank) {
+    benum::Odometer od(prod_radix(type)); od.set_rank(rank);
+    const auto& g = od.digit;
+    AObj o; o.type = type; o.label = "product#" + std::to_string(rank);
+    if (type == 'c') {
+        o.id = g[0] ? 2147483648LL : 1; o.created = g[1] ? T0 : 0; o.closed = g[2] ? T0 + 3600 : 0; o.num_changes = g[3] ? 5 : 0; o.num_comments = g[4] ? 2 : 0;
+        if (g[5] >= 1) { o.uid = 5; o.user = g[5] == 1 ? "bob" : ""; }
+        if (g[6]) { o.bl = Loc{-10, -20}; o.tr = Loc{10, 20}; }
+        if (g[7]) o.tags = {{"created_by", "x"}, {"comment", "a b"}};
+        for (uint32_t i = 0; i < g[8]; ++i) o.comments.push_back({T0 + i, i * 7, i ? "carol" : "", i ? "second, comment" : "first"});
+        return o;
+    }
+    o.id = g[0] == 0 ? 1 : g[0] == 1 ? -1 : (1LL << 32) + 5; o.version = g[1] == 0 ? 0 : g[1] == 1 ? 1 : 7; o.ts = g[2] ? T0 : 0; o.changeset = g[3] ? 9 : 0; o.uid = g[4] ? 5 : 0;
+    o.user = g[5] ? "bob" : ""; o.visible = g[6] == 0;
+    if (type == 'n') { if (g[7] == 1) o.loc = Loc{1, 2}; if (g[7] == 2) o.loc = Loc{-1800000000, 900000000}; }
+    if (type == 'w') { if (g[7] == 1) o.refs = {{5, Loc{7, 8}}}; if (g[7] == 2) o.refs = {{9, Loc{}}, {3, Loc{-5, 5}}, {9, Loc{1, 1}}}; }
+    if (type == 'r') { if (g[7] == 1) o.members = {{'w', 5, "outer"}}; if (g[7] == 2) o.members = {{'n', 9, ""}, {'r', 3, "x y"}, {'w', -9, "inner"}}; }
+    if (g[8] == 1) o.tags = {{"k", "v"}}; if (g[8] == 2) o.tags = {{"name", "A & B"}, {"k", "v"}};
+    return o;
+}
+static const uint64_t PROD_CHUNK = 96;
+
+// ------------------------------------------------------------------------------------------------
+// block families
+static AObj blk_obj(char type, uint64_t i) {
+    AObj o; o.type = type; o.id = static_cast<int64_t>(i) * 3 + 1 - (i % 11 == 0 ? 1000000 : 0); o.version = static_cast<uint32_t>(i % 5); o.changeset = static_cast<uint32_t>(i / 3);
+    o.uid = static_cast<uint32_t>(i % 7); o.ts = T0 + static_cast<uint32_t>(i * 13 % 100000); o.user = "u" + std::to_string(i % 50);
+    o.tags = {{"k", "v" + std::to_string(i)}};   // one distinct string per object: the string table of a block gets one entry per object
+    if (i % 4 == 0) o.tags.push_back({"name", "n" + std::to_string(i % 300)});
+    if (type == 'n') o.loc = Loc{static_cast<int32_t>(i * 1000), static_cast<int32_t>(-static_cast<int64_t>(i) * 7)};
+    if (type == 'w') o.refs = {{static_cast<int64_t>(i), Loc{static_cast<int32_t>(i), 5}}, {static_cast<int64_t>(i) + 1, Loc{}}, {static_cast<int64_t>(i) - 5, Loc{-3, static_cast<int32_t>(i)}}};
+    if (type == 'r') o.members = {{"nwr"[i % 3], static_cast<int64_t>(i), "r" + std::to_string(i % 9)}, {'w', -static_cast<int64_t>(i), ""}};
+    return o;
+}
+
+// independent size arithmetic for the 32 MiB families (protobuf varint / zigzag lengths)
+static unsigned varint_len(uint64_t v) { unsigned n = 1; while (v >= 0x80) { v >>= 7; ++n; } return n; }
+static uint64_t zigzag(int64_t v) { return (static_cast<uint64_t>(v) << 1) ^ static_cast<uint64_t>(v >> 63); }
+static const int64_t FAR_A = 1LL << 61, FAR_B = -(1LL << 61);   // alternating refs: 9-byte deltas
+// encoded size of a way without tags and metadata inside a PrimitiveGroup
+static uint64_t pbf_way_size(int64_t id, size_t nrefs) {
+    uint64_t payload = 0; int64_t prev = 0;
+    for (size_t i = 0; i < nrefs; ++i) { int64_t r = i % 2 ? FAR_B : FAR_A; payload += varint_len(zigzag(r - prev)); prev = r; }
+    uint64_t way = 1 + varint_len(static_cast<uint64_t>(id)) + (nrefs ? 1 + varint_len(payload) + payload : 0);
+    return 1 + varint_len(way) + way;
+}
+static AObj far_way(int64_t id, size_t nrefs) {
+    AObj o; o.type = 'w'; o.id = id; o.label = "way-with-" + std::to_string(nrefs) + "-far-apart-refs";
+    o.refs.reserve(nrefs);
+    for (size_t i = 0; i < nrefs; ++i) o.refs.push_back({i % 2 ? FAR_B : FAR_A, Loc{}});
+    return o;
+}
+static const uint64_t BLOB_LIMIT = 32ull * 1024 * 1024, BLOB_FILL = BLOB_LIMIT * 95 / 100;
+
+static std::vector<std::string> split_str(const std::string& s, char c) { std::vector<std::string> r; size_t p = 0; for (;;) { size_t q = s.find(c, p); r.push_back(s.substr(p, q == std::string::npos ? q : q - p)); if (q == std::string::npos) break; p = q + 1; } return r; }
+
+// header families
+static const std::vector<int32_t> LONS = {-1800000000, -1799999999, -1374389000, -1, 0, 1, 1374389000, 1799999999, 1800000000};
+static const std::vector<int32_t> LATS = {-900000000, -899999999, -687194500, -1, 0, 1, 687194500, 899999999, 900000000};
+static std::vector<std::vector<ABox>> header_boxes() {
+    std::vector<std::vector<ABox>> r;
+    r.push_back({});
+    for (size_t i = 0; i < LONS.size(); ++i) for (size_t j = i; j < LONS.size(); ++j) r.push_back({ABox{Loc{LONS[i], -5}, Loc{LONS[j], 5}}});
+    for (size_t i = 0; i < LATS.size(); ++i) for (size_t j = i; j < LATS.size(); ++j) r.push_back({ABox{Loc{-5, LATS[i]}, Loc{5, LATS[j]}}});
+    r.push_back({ABox{Loc{-1800000000, -900000000}, Loc{1800000000, 900000000}}});
+    r.push_back({ABox{Loc{1799999999, 899999999}, Loc{1800000000, 900000000}}});
+    r.push_back({ABox{Loc{10, 10}, Loc{20, 20}}, ABox{Loc{30, 30}, Loc{40, 40}}});
+    r.push_back({ABox{Loc{30, 30}, Loc{40, 40}}, ABox{Loc{10, 10}, Loc{20, 20}}});
+    r.push_back({ABox{Loc{10, 10}, Loc{40, 40}}, ABox{Loc{20, 20}, Loc{30, 30}}});
+    r.push_back({ABox{Loc{10, 10}, Loc{20, 20}}, ABox{Loc{10, 10}, Loc{20, 20}}});
+    r.push_back({ABox{Loc{-1800000000, 0}, Loc{-1, 10}}, ABox{Loc{1, -10}, Loc{1800000000, 0}}});
+    r.push_back({ABox{Loc{0, -900000000}, Loc{0, 0}}, ABox{Loc{0, 0}, Loc{0, 900000000}}});
+    return r;
+}
+
+// ------------------------------------------------------------------------------------------------
+// make_dataset(name): the one place where data sets come from (enumeration and replay)
+static DataSet make_dataset(const std::string& name) {
+    DataSet d; d.name = name;
+    const auto p = split_str(name, ':');
+    const std::string& fam = p[0];
+    auto num = [&](size_t i) { return i < p.size() ? strtoull(p[i].c_str(), nullptr, 10) : 0ull; };
+    auto typ = [&](size_t i) { return i < p.size() && !p[i].empty() ? p[i][0] : 'n'; };
+    if (fam == "ofat") {                    // ofat:<type>:<feed>  all variants of one type
+        d.objs = variants(typ(1)); d.feed = static_cast<int>(num(2));
+    } else if (fam == "mixed") {            // mixed:<feed>  variants of all types interleaved (changesets included)
+        std::vector<AObj> v[4] = {variants('n'), variants('w'), variants('r'), variants('c')};
+        size_t n = std::max(std::max(v[0].size(), v[1].size()), std::max(v[2].size(), v[3].size()));
+        for (size_t i = 0; i < n; ++i) for (int t : {2, 0, 3, 1}) if (i < v[t].size()) d.objs.push_back(v[t][i]);
+        d.feed = static_cast<int>(num(1));
+    } else if (fam == "one") {              // one:<type>:<k>  a single variant
+        auto v = variants(typ(1)); if (num(2) < v.size()) d.objs.push_back(v[num(2)]);
+    } else if (fam == "two") {              // two:<type>:<k>:<order>  the variant next to the base object (order 0: base first)
+        auto v = variants(typ(1)); if (num(2) < v.size()) { AObj b = v[0]; b.id = 16; if (num(3)) { d.objs.push_back(v[num(2)]); d.objs.push_back(b); } else { d.objs.push_back(b); d.objs.push_back(v[num(2)]); } }
+    } else if (fam == "three") {            // three:<type>:<k>  variant between two objects of the other types
+        auto v = variants(typ(1)); if (num(2) < v.size()) { d.objs.push_back(base_obj(typ(1) == 'n' ? 'r' : 'n')); d.objs.push_back(v[num(2)]); d.objs.push_back(base_obj(typ(1) == 'w' ? 'r' : 'w')); }
+    } else if (fam == "prod") {             // prod:<type>:<chunk>
+        uint64_t b = num(2) * PROD_CHUNK, e = std::min(prod_total(typ(1)), b + PROD_CHUNK);
+        for (uint64_t r = b; r < e; ++r) d.objs.push_back(prod_obj(typ(1), r));
+    } else if (fam == "blk") {              // blk:<type>:<N>
+        for (uint64_t i = 0; i < num(2); ++i) d.objs.push_back(blk_obj(typ(1), i));
+        d.keyhint = "block-family-" + p[1] + "x" + p[2];
+    } else if (fam == "alt") {              // alt:<pattern>:<N>  type of object i = pattern[i % len]
+        for (uint64_t i = 0; i < num(2); ++i) d.objs.push_back(blk_obj(p[1][i % p[1].size()], i));
+        d.keyhint = "type-alternation-" + p[1];
+    } else if (fam == "big") {
+        const std::string& kind = p[1];
+        if (kind == "strtab") {             // big:strtab:<type>:<N>  N objects x 3 tags (members: 6 roles) of distinct 1024-byte strings
+            char t = typ(2);
+            for (uint64_t i = 0; i < num(3); ++i) {
+                AObj o; o.type = t; o.id = static_cast<int64_t>(i) + 1; o.loc = Loc{static_cast<int32_t>(i), 1};
+                auto str = [&](int j) { char b[32]; snprintf(b, sizeof b, "%07llu-%d-", static_cast<unsigned long long>(i), j); return std::string(b) + std::string(1024 - strlen(b), static_cast<char>('a' + j)); };
+                if (t == 'r') for (int j = 0; j < 6; ++j) o.members.push_back({'n', j, str(j)});
+                else for (int j = 0; j < 3; ++j) o.tags.push_back({str(2 * j), str(2 * j + 1)});
+                d.objs.push_back(std::move(o));
+            }
+            d.keyhint = "string-table-bytes";
+        } else if (kind == "fill") {        // big:fill:<N>:<refs>  N ways of <refs> far-apart refs: group data alone crosses the limits
+            for (uint64_t i = 0; i < num(2); ++i) d.objs.push_back(far_way(static_cast<int64_t>(i) + 1, num(3)));
+            d.keyhint = "group-data-fill";
+        } else if (kind == "oversize") {    // big:oversize:<refs-of-the-big-way>  block filled to just under 95 %, then one way > 5 % of 32 MiB
+            uint64_t used = 0; int64_t id = 1;
+            while (used + pbf_way_size(id, 2000) < BLOB_FILL - 64) { used += pbf_way_size(id, 2000); d.objs.push_back(far_way(id, 2000)); ++id; }
+            d.objs.push_back(far_way(id++, num(2)));
+            for (int k = 0; k < 3; ++k) d.objs.push_back(far_way(id++, 2000));
+            d.keyhint = "oversized-single-object";
+        }
+    } else if (fam == "hdr") {              // hdr:<boxes>:<generator>:<nobj>   generator 0 = none given, 1 = "verif", 2+k = strings()[k]
+        auto hb = header_boxes(); if (num(1) < hb.size()) d.header.boxes = hb[num(1)];
+        uint64_t g = num(2); if (g == 1) d.header.generator = "verif"; else if (g >= 2 && g - 2 < strings().size()) d.header.generator = strings()[g - 2];
+        for (uint64_t i = 0; i < num(3); ++i) d.objs.push_back(base_obj("nwr"[i % 3]));
+    } else if (fam == "box") {              // box:<x1>:<y1>:<x2>:<y2>  one header box (candidates of the bbox sweep)
+        d.header.boxes.push_back(ABox{Loc{static_cast<int32_t>(atoll(p[1].c_str())), static_cast<int32_t>(atoll(p[2].c_str()))}, Loc{static_cast<int32_t>(atoll(p[3].c_str())), static_cast<int32_t>(atoll(p[4].c_str()))}});
+    }
+    return d;
+}
+
+// ================================================================================================
+// enumeration: groups of (data set names) x (option vectors); rank = ds * |opts| + opt
+struct Group { std::string bound; std::vector<std::string> names; std::vector<Opt> opts; };
+
+static DataSet g_cached; static std::string g_cached_name = "\x01";
+static const DataSet& dataset(const std::string& name) {
+    if (name != g_cached_name) { g_cached = make_dataset(name); g_cached_name = name; }
+    return g_cached;
+}
+
+static std::string spec_of(const std::string& name, const Opt& o) { return name + ";sel=all;opt=" + opt_string(o); }
+
+static void on_child_death(const std::string& name, const Opt& o, const std::string& what, const std::string& err) {
+    const DataSet& d = dataset(name);
+    V.report("crash/" + area(o, single_type(d, o)) + "/" + benum::death_class(what, err) + "/" + subject(d, o),
+             "options: " + opt_human(o) + " | data set " + name + " | child died: " + what + " | " + err.substr(0, 600), spec_of(name, o));
+}
+
+static void run_groups(const Args& a, const std::vector<Group>& groups) {
+    benum::Sampler sampler(a.seed, 2, 997);
+    for (const Group& g : groups) {
+        const uint64_t total = static_cast<uint64_t>(g.names.size()) * g.opts.size();
+        benum::Isolation iso; iso.case_timeout_s = 120.0;
+        bool complete = benum::run_isolated(a, 0, total,
+            [&](uint64_t r) {
+                const std::string& name = g.names[r / g.opts.size()]; const Opt& o = g.opts[r % g.opts.size()];
+                const DataSet& d = dataset(name);
+                evaluate(d, o);
+                if (sampler.want(r) && !d.objs.empty()) benum::sample("[" + opt_human(o) + "] " + name + " (" + std::to_string(d.objs.size()) + " objects), e.g. " + show(d.objs[(r * 7) % d.objs.size()]));
+            },
+            [&](uint64_t r, const std::string& what, const std::string& err) {
+                on_child_death(g.names[r / g.opts.size()], g.opts[r % g.opts.size()], what, err);
+            }, iso);
+        benum::bound(g.bound + " [" + std::to_string(g.names.size()) + " data sets x " + std::to_string(g.opts.size()) + " option vectors]", complete);
+    }
+}
+
+static std::vector<Opt> filter_opts(const std::vector<Opt>& in, bool (*keep)(const Opt&)) { std::vector<Opt> r; for (const Opt& o : in) if (keep(o)) r.push_back(o); return r; }
+
+static void part_ofat(const Args& a) {
+    std::vector<Group> gs;
+    { Group g; g.bound = "ofat packed: every one-factor variant of n/w/r/c in one sequence per type, and all types interleaved in 4 feed modes, x every option vector";
+      for (const char* t : {"n", "w", "r", "c"}) g.names.push_back(std::string("ofat:") + t + ":0");
+      for (int feed = 0; feed < 4; ++feed) g.names.push_back("mixed:" + std::to_string(feed));
+      g.opts = all_opts(3); gs.push_back(g); }
+    const int lvl = a.thorough ? 3 : 1;
+    { Group g; g.bound = std::string("ofat singles: each one-factor variant alone x ") + (a.thorough ? "every option vector" : "level-1 option vectors");
+      for (char t : {'n', 'w', 'r', 'c'}) { size_t n = variants(t).size(); for (size_t k = 0; k < n; ++k) g.names.push_back(std::string("one:") + t + ":" + std::to_string(k)); }
+      g.opts = all_opts(lvl); gs.push_back(g); }
+    { Group g; g.bound = std::string("ofat pairs: base object before / after each variant x ") + (a.thorough ? "level-2" : "level-0") + " option vectors";
+      for (char t : {'n', 'w', 'r', 'c'}) { size_t n = variants(t).size(); for (size_t k = 0; k < n; ++k) for (int ord = 0; ord < 2; ++ord) g.names.push_back(std::string("two:") + t + ":" + std::to_string(k) + ":" + std::to_string(ord)); }
+      g.opts = all_opts(a.thorough ? 2 : 0); gs.push_back(g); }
+    if (a.thorough) {
+      Group g; g.bound = "ofat triples: each variant between two objects of the other types x level-1 option vectors";
+      for (char t : {'n', 'w', 'r'}) { size_t n = variants(t).size(); for (size_t k = 0; k < n; ++k) g.names.push_back(std::string("three:") + t + ":" + std::to_string(k)); }
+      g.opts = all_opts(1); gs.push_back(g); }
+    run_groups(a, gs);
+}
+
+static void part_prod(const Args& a) {
+    Group g; g.bound = std::string("reduced product: 2-3 values per field, all combinations, chunks of 96 objects x ") + (a.thorough ? "every option vector" : "level-2 option vectors");
+    for (char t : {'n', 'w', 'r', 'c'}) { uint64_t chunks = (prod_total(t) + PROD_CHUNK - 1) / PROD_CHUNK; for (uint64_t c = 0; c < chunks; ++c) g.names.push_back(std::string("prod:") + t + ":" + std::to_string(c)); }
+    g.opts = all_opts(a.thorough ? 3 : 2);
+    run_groups(a, {g});
+}
+
+static void part_blk(const Args& a) {
+    std::vector<Group> gs;
+    std::vector<Opt> opts = all_opts(a.thorough ? 2 : 1);
+    if (!a.thorough) {   // quick: add file compression / second pool size for the default vector of each format
+        for (const Opt& o : all_opts(0)) for (int zip = 0; zip < 3; ++zip) for (int thr = 1; thr <= 2; ++thr) { if (!zip && thr == 1) continue; if (o.pbf() && (!o.dense || o.pcomp != 1)) continue; Opt x = o; x.zip = zip; x.thr = thr; opts.push_back(x); }
+    }
+    { Group g; g.bound = "block boundary: 7999/8000/8001 objects of one type";
+      for (const char* t : {"n", "w", "r"}) for (const char* n : {"7999", "8000", "8001"}) g.names.push_back(std::string("blk:") + t + ":" + n);
+      g.opts = opts; gs.push_back(g); }
+    { Group g; g.bound = "type alternation: a new block with every type change";
+      for (const char* pat : {"nwr", "nnwrr", "rwn", "wn"}) g.names.push_back(std::string("alt:") + pat + ":600");
+      g.opts = opts; gs.push_back(g); }
+    if (a.thorough) {
+      Group g; g.bound = "block boundary: 16001 objects of one type, 24001 objects of three types";
+      for (const char* t : {"n", "w", "r"}) g.names.push_back(std::string("blk:") + t + ":16001");
+      g.names.push_back("alt:n:24001"); g.names.push_back("alt:nnnnnnnnnnwwwwwwwwwwrrrrrrrrrr:24001");
+      g.opts = opts; gs.push_back(g); }
+    run_groups(a, gs);
+}
+
+static void part_big(const Args& a) {
+    std::vector<Group> gs;
+    auto pbf_opts = [](bool all_comp) { std::vector<Opt> r; for (int fmt : {3, 4}) for (int dense : {1, 0}) for (int pcomp : {0, 2, 1}) { if (!all_comp && (pcomp == 1 || fmt == 4)) continue; Opt o; o.fmt = fmt; o.dense = dense; o.pcomp = pcomp; o.meta = 0; r.push_back(o); } return r; };
+    { Group g; g.bound = "32 MiB: string-table-heavy blocks (N objects x 6 distinct 1024-byte strings)";
+      g.names = {"big:strtab:n:5000", "big:strtab:n:8000"};
+      if (a.thorough) for (const char* n : {"big:strtab:n:5300", "big:strtab:n:5600", "big:strtab:w:8000", "big:strtab:r:8000", "big:strtab:n:16001"}) g.names.push_back(n);
+      g.opts = pbf_opts(a.thorough); gs.push_back(g); }
+    { Group g; g.bound = "32 MiB: group-data-heavy blocks (ways of 2000 far-apart refs; data crosses 0.95 x 32 MiB and 32 MiB)";
+      g.names = {"big:fill:1900:2000"};
+      if (a.thorough) for (const char* n : {"big:fill:1700:2000", "big:fill:3800:2000", "big:fill:400:9000", "big:fill:7000:500"}) g.names.push_back(n);
+      g.opts = pbf_opts(a.thorough); for (Opt& o : g.opts) o.dense = 1;
+      std::vector<Opt> u; for (const Opt& o : g.opts) { bool dup = false; for (const Opt& x : u) if (opt_string(x) == opt_string(o)) dup = true; if (!dup) u.push_back(o); } g.opts = u;
+      gs.push_back(g); }
+    { Group g; g.bound = "32 MiB: one way larger than 5 % of 32 MiB added to a block filled to just under 95 %";
+      g.names = {"big:oversize:250000"};
+      if (a.thorough) { g.names.push_back("big:oversize:200000"); g.names.push_back("big:oversize:150000"); }
+      Opt o; o.fmt = 3; o.pcomp = 0; o.meta = 0; g.opts = {o};
+      if (a.thorough) { Opt z = o; z.pcomp = 1; g.opts.push_back(z); z.fmt = 4; z.pcomp = 2; g.opts.push_back(z); }
+      gs.push_back(g); }
+    run_groups(a, gs);
+}
+
+static void part_hdr(const Args& a) {
+    std::vector<Group> gs;
+    std::vector<Opt> opts;
+    for (const Opt& o : all_opts(0)) { if (o.pbf() && !o.dense) continue; for (int zip = 0; zip < 3; ++zip) for (int thr = 1; thr <= 2; ++thr) { Opt x = o; x.zip = zip; x.thr = thr; opts.push_back(x); } }
+    const size_t nb = header_boxes().size();
+    { Group g; g.bound = "header: 0..2 bounding boxes over corner boundary coordinates, with 0 and 1 objects";
+      for (size_t b = 0; b < nb; ++b) for (int n : {0, 1}) g.names.push_back("hdr:" + std::to_string(b) + ":1:" + std::to_string(n));
+      g.opts = opts; gs.push_back(g); }
+    { Group g; g.bound = "header: generator strings";
+      for (size_t s = 0; s < strings().size() + 2; ++s) g.names.push_back("hdr:1:" + std::to_string(s) + ":" + std::to_string(s % 4));
+      g.opts = opts; gs.push_back(g); }
+    (void)a;
+    run_groups(a, gs);
+}
+
+// ================================================================================================
+// bbox: PBF header bounding box through the real header encoder (PBFOutputFormat::write_header, run by the pool)
+// and the real header decoder (decode_header). Per call four coordinates are checked: box (x-180e7.., y-90e7..)-(x, y).
+struct HeaderCodec {
+    osmium::thread::Pool pool{1};
+    osmium::io::detail::future_string_queue_type queue{4096, "c01"};
+    std::unique_ptr<osmium::io::detail::OutputFormat> out;
+    HeaderCodec() {
+        osmium::io::File f{"x.pbf", "pbf,pbf_compression=none"};
+        out = osmium::io::detail::OutputFormatFactory::instance().create_output(pool, f, queue);
+    }
+    void submit(const ABox& b) {
+        osmium::io::Header h; h.add_box(osmium::Box{to_loc(b.bl), to_loc(b.tr)}); h.set("generator", "v");
+        out->write_header(h);
+    }
+    bool fetch(ABox& got) {   // false: not decodable
+        std::future<std::string> fut; queue.wait_and_pop(fut);
+        std::string bytes = fut.get();
+        Framing fr = pbf_framing(bytes);
+        if (!fr.parsed) return false;
+        osmium::io::Header h = osmium::io::detail::decode_header(fr.header_blob);
+        if (h.boxes().size() != 1) return false;
+        got.bl = from_loc(h.boxes()[0].bottom_left()); got.tr = from_loc(h.boxes()[0].top_right());
+        return true;
+    }
+};
+
+static void part_bbox(const Args& a) {
+    // coordinate pairs: lon k -> (k - 1800000000, k) for k in [0, 1800000000]; lat j -> (j - 900000000, j), j = k / 2
+    HeaderCodec hc;
+    const uint64_t K = 1800000001ull;
+    const double budget_s = a.thorough ? std::min(a.deadline_s, 420.0) : std::min(a.deadline_s, 12.0);
+    auto t0 = std::chrono::steady_clock::now();
+    auto spent = [&] { return std::chrono::duration<double>(std::chrono::steady_clock::now() - t0).count(); };
+    uint64_t bad = 0, reported = 0;
+    std::vector<ABox> cand;
+    auto run_batch = [&](const std::vector<ABox>& batch) {
+        for (const ABox& b : batch) hc.submit(b);
+        for (const ABox& b : batch) {
+            ABox g; bool ok = hc.fetch(g);
+            ++C["evaluations"]; ++C["distinct_nontrivial"]; C["bbox_coordinates_checked"] += 4;
+            if (!ok || g.bl != b.bl || g.tr != b.tr) { ++bad; if (cand.size() < 6) cand.push_back(b); }
+        }
+    };
+    // successive refinement: stride 2^s with offsets so that coverage stays uniform whenever the budget ends
+    std::vector<ABox> batch; batch.reserve(2048);
+    int finest = -1; bool all = false;
+    const int s_first = 20;
+    for (int s = s_first; s >= 0 && !all; --s) {
+        const uint64_t stride = 1ull << s, first = (s == s_first) ? 0 : stride;       // level s adds the odd multiples of 2^s
+        const uint64_t step = (s == s_first) ? stride : stride * 2;
+        bool done = true;
+        uint64_t idx = 0;
+        for (uint64_t k = first; k < K; k += step, ++idx) {
+            if (idx % a.nshards != a.shard) continue;
+            int32_t x2 = static_cast<int32_t>(k), x1 = static_cast<int32_t>(static_cast<int64_t>(k) - 1800000000), y2 = static_cast<int32_t>(k / 2), y1 = y2 - 900000000;
+            batch.push_back(ABox{Loc{x1, y1}, Loc{x2, y2}});
+            if (batch.size() == 2048) { run_batch(batch); batch.clear(); if (spent() > budget_s) { done = false; break; } }
+        }
+        if (!batch.empty()) { run_batch(batch); batch.clear(); }
+        if (!done) break;
+        finest = s; if (s == 0) all = true;
+    }
+    benum::bound("PBF header bbox through write_header()/decode_header(): every 2^" + std::to_string(finest < 0 ? s_first : finest) + "-th fixed-point longitude of [-180,180] and latitude of [-90,90]" + (all ? " (= every value)" : ""), finest >= 0);
+    if (a.thorough) benum::bound("PBF header bbox: every valid fixed-point coordinate", all);
+    benum::maxv("bbox_finest_stride_log2_completed", finest < 0 ? 99 : static_cast<uint64_t>(finest));
+    C["bbox_boxes_not_reproduced"] += bad;
+    // the verdict comes from full Writer -> file -> Reader cycles on the candidates
+    make_dir();
+    for (const ABox& b : cand) {
+        if (reported >= 3) break;
+        DataSet d = make_dataset("box:" + std::to_string(b.bl.x) + ":" + std::to_string(b.bl.y) + ":" + std::to_string(b.tr.x) + ":" + std::to_string(b.tr.y));
+        Opt o; o.fmt = 3; o.pcomp = 0;
+        evaluate(d, o); ++reported;
+    }
+    if (bad) benum::note("bbox sweep: " + std::to_string(bad) + " boxes of this shard did not come back identical from write_header()/decode_header()");
+    benum::sample("bbox: box (-180.0000000,-90.0000000)-(0.0000000,0.0000000) ... (0.0000000,0.0000000)-(180.0000000,90.0000000) through PBFOutputFormat::write_header and decode_header");
+}
+
+// ================================================================================================
+static void replay(const Args& a, const std::string& spec) {
+    auto parts = split_str(spec, ';');
+    if (parts.size() < 3) { fprintf(stderr, "bad spec\n"); return; }
+    const std::string name = parts[0], sel = parts[1].substr(4), opt = parts[2].substr(4);
+    const Opt o = opt_parse(opt);
+    benum::Isolation iso; iso.case_timeout_s = 600.0;
+    Args one = a; one.shard = 0; one.nshards = 1; one.deadline_s = 1e9;
+    benum::run_isolated(one, 0, 1,
+        [&](uint64_t) {
+            DataSet d = make_dataset(name);
+            if (sel != "all") { d = select(d, sel_parse(sel)); d.name = name; }
+            if (getenv("C01_KEEP")) g_keep_file = true;
+            evaluate(d, o, true);
+        },
+        [&](uint64_t, const std::string& what, const std::string& err) { on_child_death(name, o, what, err); }, iso);
+}
+
+int main(int argc, char** argv) {
+    Args a = benum::parse_args(argc, argv);
+    make_dir();
+    if (a.replay) { replay(a, a.replay_spec); cleanup_dir(); return 0; }
+    std::string part = a.rest.size() >= 2 && a.rest[0] == "--part" ? a.rest[1] : "";
+    if (part == "ofat") part_ofat(a);
+    else if (part == "prod") part_prod(a);
+    else if (part == "blk") part_blk(a);
+    else if (part == "big") part_big(a);
+    else if (part == "hdr") part_hdr(a);
+    else if (part == "bbox") part_bbox(a);
+    else { fprintf(stderr, "unknown part\n"); cleanup_dir(); return 2; }
+    C.emit();
+    cleanup_dir();
+    return 0;
 }
